@@ -406,6 +406,25 @@ def placeholder_rules(ctx) -> None:
                                                               lambda e: isinstance(e, ast.Call) and unparse(e.func) == "_convert_to_pep440" and unparse(e.args[0]) == vp)
     ctx.check("R4", ok_p, "normalize_pattern: {pep440_version} -> _convert_to_pep440(version pattern)",
               "v2patterns.normalize_pattern: {pep440_version} is not expanded from the version pattern", f"{[unparse(c) for c in reps]}", loc=np_fn.loc())
+    # ... both, wherever they occur: normalize_pattern evaluated on raw patterns that name one, the other, both (in either order, repeated) or none
+    from sa.model import CannotFold as _CF, EvalError as _EE
+    wrong_np: T.List[str] = []
+    samples_np = ["{version}", "{pep440_version}", "a {version} b {pep440_version} c", "x-{pep440_version}/{version}/{pep440_version}", "no placeholder", "{version}{version}"]
+    try:
+        for raw_ in samples_np:
+            env_ = {vp: "<VP>", rp: raw_, "__strict__": True, "__stubs__": {"_convert_to_pep440": lambda f, node: "<PEP>"}}
+            try:
+                got_, _ys = prog.run_body(np_fn, env_)
+            except _EE as ex_:
+                got_ = f"raises {ex_}"
+            want_ = raw_.replace("{version}", "<VP>").replace("{pep440_version}", "<PEP>")
+            if got_ != want_:
+                wrong_np.append(f"{raw_!r} -> {got_!r}, expected {want_!r}")
+        ctx.check("R4", not wrong_np, f"normalize_pattern expands every occurrence of both placeholders ({len(samples_np)} raw patterns evaluated)",
+                  "v2patterns.normalize_pattern: a placeholder is left unexpanded for some raw patterns", "; ".join(wrong_np[:2]), loc=np_fn.loc(),
+                  witness={"pattern": "dist/{version}/pkg-{pep440_version}.tar.gz"})
+    except (_CF, TypeError, AttributeError, KeyError, ValueError, IndexError) as ex_:
+        ctx.observe(f"v2patterns.normalize_pattern not evaluated ({type(ex_).__name__}: {str(ex_)[:80]})")
     n1 = prog.function("v1patterns._normalized_pattern")
     ctx.visit(n1.fq)
     reps1 = [c for c in ast.walk(n1.node) if isinstance(c, ast.Call) and isinstance(c.func, ast.Attribute) and c.func.attr == "replace" and len(c.args) == 2]
